@@ -148,6 +148,23 @@ CHECKS = [
   'note': 'K1 peer sets are enumerated (9 quick / 13 thorough), values inside are solver-quantified; K2 is bounded '
           'search (not-confirmed = inconclusive).  time.time / random.shuffle are symbolic stubs.',
   'design_ref': 'DESIGN.md section 4, C19'},
+ {'id': 'C08',
+  'text': 'Real MemPool._refresh_hashes/_process_mempool/_fetch_and_accept/_accept_transactions and the four query '
+          'methods run on an asyncio loop against a MemPoolAPI stub answering from a reference world; all values are '
+          'symbolic integers, the spend graph (confirmed outputs, mempool parents, generation-like inputs) and the '
+          'hash-to-role assignment (= every delivery order) are solver-enumerated, arrival/eviction/confirmation '
+          'events are enumerated; after every synchronised refresh balance delta, (hash, fee, flag) set, unconfirmed '
+          'outputs, potential spends and the touched set are proved against the reference for every script-hash class.',
+  'note': 'Stubs: MemPoolAPI (reference world), read_tx (prepared Tx), run_in_thread, sleep.  Daemon-validity '
+          'assumptions stated in the evidence.  <= 4 transactions, one fetch batch.',
+  'design_ref': 'DESIGN.md section 4, C08'},
+ {'id': 'C09',
+  'text': 'As C08, but the world may change at every API call of a refresh (solver-enumerated placement and kind within '
+          'a budget: block with/without the index catching up, catch-up, eviction with descendants, arrival, lookup '
+          'miss); after every pass: nothing escaped, hashXs is the exact inverse of txs, every recorded transaction\'s '
+          'input pairs and fee equal the reference; after two quiet refreshes the exact C08 view is proved.',
+  'note': 'As C08; 1 (quick) / 2 (thorough) world changes; heights only rise during a refresh.',
+  'design_ref': 'DESIGN.md section 4, C09'},
 ]
 _TODO = 'check not built yet in this revision (planned, see DESIGN.md section 4); no claim is made'
-NOT_APPLICABLE = [{'property_id': f'C{n:02d}', 'reason': _TODO} for n in range(1, 20) if n not in (1, 2, 3, 4, 5, 12, 13, 14, 15, 16, 17, 18, 19)]
+NOT_APPLICABLE = [{'property_id': f'C{n:02d}', 'reason': _TODO} for n in range(1, 20) if n not in (1, 2, 3, 4, 5, 8, 9, 12, 13, 14, 15, 16, 17, 18, 19)]
